@@ -1,9 +1,11 @@
 package checks
 
 import (
+	"bytes"
 	"fmt"
 
 	"github.com/Fantom-foundation/lachesis-base/common/bigendian"
+	"github.com/Fantom-foundation/lachesis-base/hash"
 	"github.com/Fantom-foundation/lachesis-base/inter/dag"
 	"github.com/Fantom-foundation/lachesis-base/inter/idx"
 
@@ -107,5 +109,42 @@ func c32Aliasing(c *ev.Ctx) {
 			c.Eval(1)
 			c.Count("events_built_from_a_reused_mutable_event", int64(len(built)))
 		}
+	})
+}
+
+// c32SortedIDs: the library's own "sort by epoch, then Lamport, then ID" is the byte order of the IDs.
+func c32SortedIDs(c *ev.Ctx) {
+	n := c.Pick(20000, 400000)
+	c.Parallel(16, 0, func(w int) {
+		r := c.Rand("sorted", w)
+		for i := 0; i < n/16; i++ {
+			k := 2 + r.Intn(7)
+			ids := make(hash.OrderedEvents, k)
+			for j := range ids {
+				var me dag.MutableBaseEvent
+				ep, lam := uint32(1+r.Intn(3)), uint32(1+r.Intn(4))
+				if r.Intn(4) == 0 {
+					ep, lam = r.Uint32(), r.Uint32()
+				}
+				me.SetEpoch(idx.Epoch(ep))
+				me.SetLamport(idx.Lamport(lam))
+				var rid [24]byte
+				r.Read(rid[:2])
+				me.SetID(rid)
+				ids[j] = me.ID()
+			}
+			ids.ByEpochAndLamport()
+			for j := 1; j < k; j++ {
+				a, b := ids[j-1], ids[j]
+				ok := a.Epoch() < b.Epoch() || (a.Epoch() == b.Epoch() && (a.Lamport() < b.Lamport() || (a.Lamport() == b.Lamport() && bytes.Compare(a.Bytes(), b.Bytes()) <= 0)))
+				if !ok {
+					c.Violation("event-id-order", map[string]interface{}{"why": "ByEpochAndLamport left two IDs out of (epoch, Lamport, ID) order",
+						"a": fmt.Sprintf("%d:%d %s", a.Epoch(), a.Lamport(), a.Hex()), "b": fmt.Sprintf("%d:%d %s", b.Epoch(), b.Lamport(), b.Hex())})
+					return
+				}
+			}
+			c.Eval(1)
+		}
+		c.Count("id_lists_sorted_by_the_library", int64(n/16))
 	})
 }
